@@ -1415,15 +1415,24 @@ class UserAttribute(Packet):
     def __init__(self):
         super(UserAttribute, self).__init__()
         self.subpackets = UserAttributeSubPackets()
+        # the packet body exactly as it was parsed, if it was parsed: certifications are made over these octets
+        self._raw_body = None
+
+    @property
+    def body(self):
+        if self._raw_body is not None:
+            return bytearray(self._raw_body)
+        return self.subpackets.__bytearray__()
 
     def __bytearray__(self):
         _bytes = bytearray()
         _bytes += super(UserAttribute, self).__bytearray__()
-        _bytes += self.subpackets.__bytearray__()
+        _bytes += self.body
         return _bytes
 
     def parse(self, packet):
         super(UserAttribute, self).parse(packet)
+        self._raw_body = bytes(packet[:self.header.length])
 
         plen = len(packet)
         while self.header.length > (plen - len(packet)):
